@@ -107,7 +107,7 @@ class Position
 
     Color _current_side;
 
-    uint8_t _half_move_counter;
+    uint16_t _half_move_counter;
     int32_t _ply_counter;
 
     Piece _board[SQUARE_NUM];
